@@ -17,6 +17,16 @@ CONFIG = {
              "sha256 of a long password, other users' passwords); per op: result + byte-level directory snapshot; "
              "non-trivial = the history authenticates after at least one acknowledged write; distinct = distinct history terms",
     ),
+    "C02": dict(
+        drivers=[("store", "store")], run="C02", shard=60,
+        header="From Whawty Require Import Names Record Store StoreSpec.",
+        rule="one history (authenticate right/wrong password, exists, list, list-full, check, add, update, authenticate, remove, exists) per hash-file content: "
+             "valid records of every configured set (LF, CRLF, no line end, aux data), systematic mutations (each field emptied/duplicated/removed/swapped, "
+             "truncation at every length, separators deleted/doubled, single-byte substitutions and insertions by ':' LF CR NUL '=' '-' '_' '+' '/', std alphabet, padding, "
+             "numeric edge values for time and parameter-set id, other/unknown ids and algorithms, digest prefixes/extension, empty or short salt, 64 KiB line), "
+             "random bytes, random structured garbage, empty file; 1 MiB files run on the implementation only and are judged by the driver; "
+             "non-trivial = every case (each is a distinct file content); distinct = distinct history terms",
+    ),
     "C13": dict(
         drivers=[("sasl", "sasl")], run="C13", shard=600, header="From Whawty Require Import SaslCodec.",
         rule="cases: boundary-length encodes (exhaustive over {0,1,255,256,257}^4 + 65535/65536), every byte string up to length 5 (7 thorough) "
